@@ -498,9 +498,8 @@ Spans of submodels differ:
                 continue
 
             diff = {k: current_values[k] - previous_values[k] for k in current_values}
-            diff_squared = {k: v**2 for k, v in diff.items()}
 
-            if all(np.all(v < tol) for v in diff_squared.values()):
+            if all(np.all(np.abs(v) < tol) for v in diff.values()):
                 status = SolutionStatus.SOLVED.value
                 self.solve_t_after(
                     t,
